@@ -7,6 +7,7 @@ different node sets included), so they cannot depend on which hierarchy was buil
 premise fails an obligation of C10 as well.
 """
 
+from contracts import C11_transfer as _c11mod
 from contracts.C11_transfer import check_time_transfer as _c11
 
 
@@ -16,6 +17,23 @@ def check_time_transfer_matrices(tier, seed):
     return r
 
 
+def _reexport(fn):
+    def f(tier, seed):
+        r = fn(tier, seed)
+        r['prop'] = 'C10'
+        return r
+
+    f.__name__ = fn.__name__ + '_C10'
+    f.__doc__ = fn.__doc__
+    return f
+
+
+# The FAS contracts work with an abstract LINEAR space transfer (restrict / prolong uninterpreted linear maps).  That the transfer classes
+# the property names (Lagrange mesh transfer of several orders, FFT transfers, the NoCoarse transfers) really are such maps -- linear,
+# exact on what they promise, prolongation scaled independently of the coarsening ratio, component structure kept -- is C11; its checks on the
+# real classes are re-exported so that a change inside a space transfer class also fails an obligation of C10.
+SPACE = [_reexport(getattr(_c11mod, n)) for n in ('check_mesh_to_mesh', 'check_fft_transfer', 'check_fft2d_transfer', 'check_nocoarse_transfer')]
+
 CONTRACTS = []
-EXTRAS = [check_time_transfer_matrices]
+EXTRAS = [check_time_transfer_matrices] + SPACE
 ASSUMPTIONS = []
